@@ -162,26 +162,25 @@ fn fnref_label_with_email_and_nonverbatim(doc: &[u8], smart: bool) -> bool {
 
 /// Ordered-list markers (`<digits>.` or `<digits>)` after optional container markers at a line start), in document order.
 fn ol_markers(doc: &[u8]) -> Vec<u64> {
+    // any `<digits>.` / `<digits>)` token that starts a line or follows a blank or a container marker
+    // (`>`, bullet, `:` of a footnote definition) and is followed by a blank or the end of the line
     let mut v = vec![];
     for l in doc.split(|b| *b == b'\n' || *b == b'\r') {
         let mut i = 0;
-        // several markers may sit on one line: `> 1. 2. x`
-        loop {
-            while i < l.len() && matches!(l[i], b' ' | b'\t' | b'>' | b'-' | b'+' | b'*') {
-                i += 1;
-            }
-            let st = i;
-            while i < l.len() && l[i].is_ascii_digit() && i - st < 10 {
-                i += 1;
-            }
-            if i > st && i < l.len() && (l[i] == b'.' || l[i] == b')') {
-                if let Ok(n) = std::str::from_utf8(&l[st..i]).unwrap_or("").parse::<u64>() {
-                    v.push(n);
+        while i < l.len() {
+            let at_start = i == 0 || matches!(l[i - 1], b' ' | b'\t' | b'>' | b'-' | b'+' | b'*' | b':' | b']');
+            if at_start && l[i].is_ascii_digit() {
+                let st = i;
+                while i < l.len() && l[i].is_ascii_digit() && i - st < 10 {
+                    i += 1;
                 }
-                i += 1;
-            } else {
-                break;
+                if i < l.len() && (l[i] == b'.' || l[i] == b')') && (i + 1 == l.len() || l[i + 1] == b' ' || l[i + 1] == b'\t') {
+                    if let Ok(n) = std::str::from_utf8(&l[st..i]).unwrap_or("").parse::<u64>() {
+                        v.push(n);
+                    }
+                }
             }
+            i += 1;
         }
     }
     v
